@@ -86,6 +86,9 @@ pub struct Replay {
     pub case: Case,
     /// emitted program texts (for the reader; regenerated on replay)
     pub texts: Vec<String>,
+    /// raw-program case (corpus / W-IO workloads); `case` is empty then
+    #[serde(default)]
+    pub raw: Option<crate::raw::RawCase>,
 }
 
 #[derive(Default)]
@@ -588,6 +591,12 @@ pub fn run_check(cfg: &CheckCfg) -> CheckResult {
         merge(&mut agg, o.agg);
     }
 
+    // ---- raw-program workloads: repository corpus and W-IO (no model) ----
+    let mut raw_violations: Vec<(Found, crate::raw::RawCase)> = vec![];
+    if cfg.id == "C08" || cfg.id == "C15" {
+        raw_part(cfg, &mut agg, &mut raw_violations, t0);
+    }
+
     // ---- witnesses of known findings ----
     let mut known_lines: Vec<String> = vec![];
     let mut violations_out: Vec<String> = vec![];
@@ -694,6 +703,75 @@ pub fn run_check(cfg: &CheckCfg) -> CheckResult {
         }
     }
 
+    // ---- violations of the raw workloads ----
+    for (f, case) in raw_violations.iter() {
+        let dedup = format!("{}|{}", f.property, f.key);
+        if reported_keys.contains(&dedup) {
+            continue;
+        }
+        reported_keys.insert(dedup);
+        let min = crate::raw::minimise_raw(case, f);
+        let explained = known
+            .findings
+            .iter()
+            .filter(|k| k.status == "open")
+            .find(|k| explains(k, f, &History::default()));
+        match explained {
+            Some(k) => {
+                if !known_lines.iter().any(|l| l.contains(&format!("[{}]", k.id))) {
+                    known_lines.push(format!(
+                        "KNOWN-FINDING: property={} {} [{}]",
+                        cfg.id, k.what, k.id
+                    ));
+                }
+            }
+            None => {
+                n_violations += 1;
+                let rep = Replay {
+                    property: f.property.to_string(),
+                    class: format!("{:?}", f.class),
+                    key: f.key.clone(),
+                    detail: f.detail.clone(),
+                    seed: cfg.seed,
+                    scenario_index: 0,
+                    case: Case {
+                        history: History::default(),
+                        layouts: vec![Layout::canonical()],
+                        plan: vec![],
+                    },
+                    texts: vec![min.text.clone()],
+                    raw: Some(min.clone()),
+                };
+                let dir = format!("{}/replays", cfg.verif_dir);
+                let _ = std::fs::create_dir_all(&dir);
+                let path = format!(
+                    "{}/{}-{}-raw-{:08x}.json",
+                    dir,
+                    cfg.id,
+                    cfg.seed,
+                    crate::raw::digest_text(&f.key) as u32
+                );
+                std::fs::write(&path, serde_json::to_string_pretty(&rep).unwrap()).unwrap();
+                println!(
+                    "violation: {} [{:?}] {} ({})\n  minimised program:\n{}\n  stdin: {:?}\n  fault plan: {}",
+                    f.property,
+                    f.class,
+                    f.detail,
+                    min.origin,
+                    indent(&min.text.replace('\r', "")),
+                    String::from_utf8_lossy(&min.stdin),
+                    serde_json::to_string(&min.plan).unwrap()
+                );
+                let again = replay_found(&rep);
+                if !again.iter().any(|g| g.property == f.property && g.key == f.key) {
+                    eprintln!("harness error: replay {} does not reproduce", path);
+                    return CheckResult { exit: 2 };
+                }
+                violations_out.push(format!("VIOLATION property={} replay={}", cfg.id, path));
+            }
+        }
+    }
+
     if !agg.determinism_failures.is_empty() {
         eprintln!(
             "harness error: outcome depends on something outside the seed (hash order?): {:?}",
@@ -734,6 +812,246 @@ pub fn run_check(cfg: &CheckCfg) -> CheckResult {
     }
 }
 
+/// Corpus and W-IO workloads for C08 (no internal failure) and C15 (VM monitor).
+fn raw_part(
+    cfg: &CheckCfg,
+    agg: &mut Agg,
+    violations: &mut Vec<(Found, crate::raw::RawCase)>,
+    t0: Instant,
+) {
+    use crate::raw::*;
+    let quick = cfg.tier != "thorough";
+    let corpus = harvest("/repo");
+    let n_wio = if cfg.id == "C08" {
+        ((if quick { 12_000 } else { 300_000 }) as f64 * scale_env()) as usize
+    } else {
+        ((if quick { 2_000 } else { 40_000 }) as f64 * scale_env()) as usize
+    };
+    let n_corpus = corpus.programs.len();
+    let total_jobs = n_corpus + n_wio;
+    let next = Arc::new(AtomicUsize::new(0));
+    let results: Arc<Mutex<Vec<(usize, RawAgg)>>> = Arc::new(Mutex::new(vec![]));
+    let corpus = Arc::new(corpus);
+    let mut handles = vec![];
+    let id = cfg.id;
+    let seed = cfg.seed;
+    let wall_limit = cfg.wall_limit_s + 60;
+    for _ in 0..cfg.threads {
+        let next = next.clone();
+        let results = results.clone();
+        let corpus = corpus.clone();
+        handles.push(
+            std::thread::Builder::new()
+                .stack_size(256 << 20)
+                .spawn(move || {
+                    let mut local = vec![];
+                    loop {
+                        let i = next.fetch_add(1, Ordering::SeqCst);
+                        if i >= total_jobs || t0.elapsed().as_secs() > wall_limit {
+                            break;
+                        }
+                        let mut rng = Rng::new(mix(&[seed, fxhash(id), 0x5241_57, i as u64]));
+                        let mut a = RawAgg::default();
+                        if i < n_corpus {
+                            corpus_job(&corpus.programs[i], &mut rng, &mut a, quick);
+                        } else {
+                            let case = gen_wio(&mut rng);
+                            wio_job(case, &mut a);
+                        }
+                        local.push((i, a));
+                    }
+                    results.lock().unwrap().extend(local);
+                })
+                .unwrap(),
+        );
+    }
+    for h in handles {
+        let _ = h.join();
+    }
+    let mut outs = std::mem::take(&mut *results.lock().unwrap());
+    outs.sort_by_key(|o| o.0);
+    let mut accepted = 0usize;
+    let mut rejected = 0usize;
+    for (_, a) in outs {
+        agg.runs += a.runs;
+        agg.instr += a.instr;
+        agg.io_calls += a.io_calls;
+        agg.errors_dispatched += a.errors;
+        agg.monitor_visits += a.monitor_visits;
+        agg.monitor_revisits += a.monitor_revisits;
+        agg.digests.extend(a.digests.iter());
+        agg.nontrivial.extend(a.nontrivial.iter());
+        for (k, v) in a.fired {
+            *agg.fired.entry(k).or_insert(0) += v;
+        }
+        for (k, v) in a.fired_by_seam {
+            *agg.fired_by_seam.entry(k).or_insert(0) += v;
+        }
+        for (k, v) in a.outcomes {
+            *agg.probes.entry(format!("raw_outcome_{}", k)).or_insert(0) += v;
+        }
+        accepted += a.accepted;
+        rejected += a.rejected;
+        for (f, c) in a.found {
+            if f.property == cfg.id {
+                if violations.len() < 64 {
+                    violations.push((f, c));
+                }
+            } else {
+                *agg.foreign.entry(f.property.to_string()).or_insert(0) += 1;
+            }
+        }
+        if agg.samples.len() < 6 {
+            if let Some(s) = a.sample {
+                agg.samples.push(s);
+            }
+        }
+    }
+    agg.probes
+        .insert("raw_corpus_candidates".into(), corpus.candidates as u64);
+    agg.probes
+        .insert("raw_corpus_programs".into(), n_corpus as u64);
+    agg.probes
+        .insert("raw_corpus_skipped_inkey".into(), corpus.skipped_inkey as u64);
+    agg.probes.insert("raw_wio_programs".into(), n_wio as u64);
+    agg.probes
+        .insert("raw_programs_accepted".into(), accepted as u64);
+    agg.probes
+        .insert("raw_programs_rejected_by_parser_or_checker".into(), rejected as u64);
+}
+
+fn scale_env() -> f64 {
+    std::env::var("VERIF_SCALE")
+        .ok()
+        .and_then(|s| s.parse().ok())
+        .unwrap_or(1.0)
+}
+
+#[derive(Default)]
+struct RawAgg {
+    runs: u64,
+    instr: u64,
+    io_calls: u64,
+    errors: u64,
+    monitor_visits: u64,
+    monitor_revisits: u64,
+    digests: BTreeSet<u64>,
+    nontrivial: BTreeSet<u64>,
+    fired: BTreeMap<String, u64>,
+    fired_by_seam: BTreeMap<String, u64>,
+    outcomes: BTreeMap<String, u64>,
+    accepted: usize,
+    rejected: usize,
+    found: Vec<(Found, crate::raw::RawCase)>,
+    sample: Option<serde_json::Value>,
+}
+
+fn raw_account(a: &mut RawAgg, case: &crate::raw::RawCase, r: crate::raw::RawRun) {
+    a.runs += 1;
+    a.instr += r.instr;
+    a.io_calls += r.io_calls;
+    a.errors += r.errors;
+    a.monitor_visits += r.monitor_visits;
+    a.monitor_revisits += r.monitor_revisits;
+    a.digests.insert(r.digest);
+    if !r.fired.is_empty() || r.errors > 0 {
+        a.nontrivial.insert(r.digest);
+    }
+    for (c, sk, k) in &r.fired {
+        *a.fired.entry(k.name().to_string()).or_insert(0) += 1;
+        *a.fired_by_seam
+            .entry(format!("{}:{}", seam_name(*sk), class_name(*c)))
+            .or_insert(0) += 1;
+    }
+    let o = match &r.outcome {
+        crate::runner::Outcome::Ok => "ok",
+        crate::runner::Outcome::Error { .. } => "basic_error",
+        crate::runner::Outcome::Budget => "budget",
+        crate::runner::Outcome::Panic { .. } => "internal_failure",
+        crate::runner::Outcome::LintError(_) => "rejected_by_checker",
+        crate::runner::Outcome::ParseError(_) => "rejected_by_parser",
+    };
+    *a.outcomes.entry(o.to_string()).or_insert(0) += 1;
+    for f in r.found {
+        if a.found.len() < 4 {
+            a.found.push((f, case.clone()));
+        }
+    }
+}
+
+fn corpus_job(prog: &(String, String), rng: &mut Rng, a: &mut RawAgg, quick: bool) {
+    use crate::raw::*;
+    let parsed = match crate::runner::parse(&prog.0) {
+        Ok(p) => p,
+        Err(_) => {
+            a.rejected += 1;
+            return;
+        }
+    };
+    let mut first = true;
+    for stdin in stdin_variants(rng) {
+        let case = RawCase {
+            text: prog.0.clone(),
+            stdin,
+            files: vec![("A.TXT".into(), b"1,2\r\nabc\r\n".to_vec())],
+            plan: vec![],
+            origin: prog.1.clone(),
+        };
+        let r = run_raw(&case, Some(&parsed));
+        if !r.accepted {
+            a.rejected += 1;
+            return;
+        }
+        if first {
+            a.accepted += 1;
+        }
+        let ops = r.ops.clone();
+        raw_account(a, &case, r);
+        if first {
+            first = false;
+            // single faults at the first operations of every (class, seam) the program uses
+            let depth = if quick { 2 } else { 6 };
+            for ((class, seam), count) in ops {
+                for nth in 0..count.min(depth) {
+                    for kind in global_fault_kinds(class, seam) {
+                        let mut c = case.clone();
+                        c.plan = vec![global_fault(class, seam, nth, kind)];
+                        let r = run_raw(&c, Some(&parsed));
+                        raw_account(a, &c, r);
+                    }
+                }
+            }
+        }
+    }
+}
+
+fn wio_job(case: crate::raw::RawCase, a: &mut RawAgg) {
+    use crate::raw::*;
+    let parsed = match crate::runner::parse(&case.text) {
+        Ok(p) => p,
+        Err(_) => {
+            a.rejected += 1;
+            return;
+        }
+    };
+    let mut free = case.clone();
+    free.plan.clear();
+    let r = run_raw(&free, Some(&parsed));
+    if !r.accepted {
+        a.rejected += 1;
+        return;
+    }
+    a.accepted += 1;
+    if a.sample.is_none() {
+        a.sample = Some(json!({"wio_program": case.text, "stdin": String::from_utf8_lossy(&case.stdin), "plan": case.plan, "fault_free_outcome": r.outcome.short()}));
+    }
+    raw_account(a, &free, r);
+    if !case.plan.is_empty() {
+        let r = run_raw(&case, Some(&parsed));
+        raw_account(a, &case, r);
+    }
+}
+
 fn indent(s: &str) -> String {
     s.lines()
         .map(|l| format!("    | {}", l))
@@ -758,6 +1076,7 @@ pub fn make_replay(cfg: &CheckCfg, index: usize, case: &Case, f: &Found) -> Repl
         scenario_index: index,
         case: case.clone(),
         texts,
+        raw: None,
     }
 }
 
@@ -768,6 +1087,9 @@ pub fn load_replay(path: &str) -> Option<Replay> {
 
 /// Re-runs a replay file's case and returns everything found.
 pub fn replay_found(rep: &Replay) -> Vec<Found> {
+    if let Some(raw) = &rep.raw {
+        return crate::raw::run_raw(raw, None).found;
+    }
     match prepare(&rep.case.history, &rep.case.layouts) {
         Ok(prep) => run_case(&prep, &rep.case.history, &rep.case.plan, false, true).found,
         Err(_) => vec![],
